@@ -9,6 +9,7 @@ import (
 
 	gonnx "github.com/advancedclimatesystems/gonnx"
 	"github.com/advancedclimatesystems/gonnx/onnx"
+	"gorgonia.org/tensor"
 	"verifmc/hx"
 	"verifmc/ref"
 )
@@ -92,11 +93,11 @@ func checkC13(c *hx.Checker) {
 	if thorough {
 		maxSupRank = 6
 	}
-	c.Rule = "dimension denotations: 7 labels x axis 0/1 x {fixed, symbolic, unspecified} x extents 1..4 on that axis, Run and InputShapes; " +
+	c.Rule = "refused requests with a lazily transposed or column-window tensor (4 declarations x 7 base shapes x 2 layouts): refused and left untouched; dimension denotations: 7 labels x axis 0/1 x {fixed, symbolic, unspecified} x extents 1..4 on that axis, Run and InputShapes; " +
 		fmt.Sprintf("one-input signatures: every rank 1..%d with each dim in {fixed 2, fixed 3, symbolic, unspecified (no value), symbolic with an empty name} x supplied tensor of EVERY shape of Box(rank 0..%d, extents {1,2,3}) on an identity-like graph (Relu); "+
-		"introspection (InputNames / InputShapes / InputDimSize) compared with the declaration and with the observed accept/reject behaviour per axis; "+
-		"call histories: every sequence of 1..3 Runs on one Model over 11 feeds of the three-input signature (good, other dynamic sizes, each input missing / wrong rank / wrong fixed dim), every call judged by the same predicate; three-input signatures (fixed, symbolic, mixed) x every subset of supplied names, an extra name, names permuted onto the wrong tensors; inputs shadowed by initializers (supplied / not supplied). "+
-		"non-trivial = supplied shape differs from a trivially matching one (every reject case and every accept with a dynamic axis)", maxSigRank, maxSupRank)
+			"introspection (InputNames / InputShapes / InputDimSize) compared with the declaration and with the observed accept/reject behaviour per axis; "+
+			"call histories: every sequence of 1..3 Runs on one Model over 11 feeds of the three-input signature (good, other dynamic sizes, each input missing / wrong rank / wrong fixed dim), every call judged by the same predicate; three-input signatures (fixed, symbolic, mixed) x every subset of supplied names, an extra name, names permuted onto the wrong tensors; inputs shadowed by initializers (supplied / not supplied). "+
+			"non-trivial = supplied shape differs from a trivially matching one (every reject case and every accept with a dynamic axis)", maxSigRank, maxSupRank)
 	c.Assumptions = []string{"reference predicate: all non-initializer inputs present AND rank equal AND every fixed dim equal", "a supplied name the graph does not declare is outside the statement: only 'no panic' is asserted"}
 	type job struct {
 		mc   *modelCase
@@ -512,6 +513,65 @@ func checkC13(c *hx.Checker) {
 						}
 					}
 					return hx.OK("introspection")
+				})
+			}
+		}
+	}
+	// a refused request leaves the supplied tensors as they are whatever their memory layout: operands with a pending lazy
+	// transpose and column windows of a wider tensor (only refusals are judged - what kernels do with such layouts is outside
+	// every input space, validation comes before them)
+	for _, decl := range [][]int64{{2, 3}, {-1, 3}, {2, 3, 2}, {3}} {
+		decl := decl
+		mb := reluModelDims(decl)
+		for _, base := range [][]int{{4, 2}, {3, 3}, {2, 2}, {5, 3}, {2, 3, 4}, {3, 2, 2}, {4, 4}} {
+			for _, layout := range []string{"lazy-transpose", "column-window"} {
+				base, layout := base, layout
+				c.Case(hx.CaseInfo{ID: fmt.Sprintf("refused-layout/%v/%v/%s", decl, base, layout), Tags: []string{"layout", "refused-untouched"}, NonTrivial: true}, func() (v *hx.Violation) {
+					mk := func(k, d string) *hx.Violation {
+						return &hx.Violation{Kind: k, Detail: d, Replay: map[string]any{"replay_kind": "refused-layout", "decl": decl, "base": base, "layout": layout}}
+					}
+					d, _ := hx.ToG(ref.Distinct(ref.F32, base)).(*tensor.Dense)
+					if d == nil {
+						return hx.OK("not-applicable")
+					}
+					var x tensor.Tensor = d
+					if layout == "lazy-transpose" {
+						if err := d.T(); err != nil {
+							return hx.OK("not-applicable")
+						}
+					} else {
+						sl := make([]tensor.Slice, len(base))
+						sl[len(base)-1] = tensor.S(0, base[len(base)-1]-1)
+						w, err := d.Slice(sl...)
+						if err != nil || base[len(base)-1] < 3 {
+							return hx.OK("not-applicable")
+						}
+						x = w
+					}
+					if accepts(decl, x.Shape()) {
+						return hx.OK("accepted-shape/not-judged")
+					}
+					before, whole := hx.Snapshot(x), hx.Snapshot(d)
+					m, err := gonnx.NewModelFromBytes(mb)
+					if err != nil {
+						return mk("refused", "load: "+err.Error())
+					}
+					defer func() {
+						if p := recover(); p != nil {
+							v = mk("panic", fmt.Sprintf("Run panicked: %v", p))
+						}
+					}()
+					outs, rerr := m.Run(map[string]tensor.Tensor{"x": x})
+					if rerr == nil {
+						return mk("not-refused", fmt.Sprintf("tensor of shape %v accepted for declaration %v (%d outputs)", x.Shape(), decl, len(outs)))
+					}
+					if diff := before.Diff(hx.Snapshot(x)); diff != "" {
+						return mk("mutated-input", "refused Run changed the supplied tensor: "+diff)
+					}
+					if diff := whole.Diff(hx.Snapshot(d)); diff != "" {
+						return mk("mutated-input", "refused Run changed the tensor the supplied window belongs to: "+diff)
+					}
+					return hx.OK("refused-untouched")
 				})
 			}
 		}
